@@ -199,6 +199,14 @@ func (d *refDriver) Run(cc core.Case) core.Outcome {
 	if len(s.Mods) != len(c.Scenario.Mods) {
 		o.Count("probe.two_revisions_loaded", 1)
 	}
+	for _, m := range s.Mods {
+		if m.IsSub() && s.Mod(m.BelongsTo) == nil {
+			// (only shrinking produces this; what goyang says about a submodule
+			// whose module is absent is not this property's business)
+			o.Discard = "submodule-without-its-module"
+			return o
+		}
+	}
 	cp := model.CompileWith(s, c.Options.IgnoreNotSupported)
 	must := model.MustReport(s)
 	execs := append([]c05Run{{Order: names, Sched: maporder.Canonical()}}, c.Runs...)
